@@ -476,6 +476,7 @@ var errorExitTable = []struct {
 	why           string
 }{
 	{"C17", "controller/services", "c.GetTLSSecretContent", 1, []string{`checkValidCertPEM != nil`, `get != nil`, `missing lookup "tls.crt"`}, "any other error makes the signer take a valid certificate as missing and request it again on every check"},
+	{"C15", "converters/gateway", "converter.readCertRef", 1, []string{`always`, `certRef.Group != "core"`, `certRef.Kind != "Secret"`}, "a certificate reference of a foreign group or kind must be refused, everything else is the verdict of the cache read"},
 	{"C15", "controller/services", "c.GetTLSSecretPath", 1, []string{`Stat != nil`, `buildResourceName != nil`, `getCertificate != nil`, `getCertificate == nil`, `getContentProtocol#0 != "secret"`}, "a dropped or inverted test lets a missing, foreign or malformed object through (or rejects a good one, which falls back to the default certificate / drops the declaration)"},
 	{"C15", "controller/legacy", "k8scache.GetTLSSecretPath", 1, []string{`GetCertificate != nil`, `GetCertificate == nil`, `Stat != nil`, `buildResourceName != nil`, `getContentProtocol#0 != "secret"`}, "a dropped or inverted test lets a missing, foreign or malformed object through (or rejects a good one, which falls back to the default certificate / drops the declaration)"},
 	{"C15", "controller/services", "c.GetCASecretPath", 2, []string{`Stat != nil`, `Stat != nil`, `buildResourceName != nil`, `getCertificate != nil`, `getCertificate#0.CAFileName == ""`, `getContentProtocol#0 != "secret"`, `getContentProtocol#1 == ""`, `len(Split) > 2`}, "a dropped or inverted test lets a missing, foreign or malformed object through (or rejects a good one, which falls back to the default certificate / drops the declaration)"},
@@ -502,7 +503,7 @@ var errorExitTable = []struct {
 func init() {
 	addRule("C12", &core.Rule{ID: "C12.error-exits", Floor: 8, Run: func(c *core.Ctx) { errorExitRule(c, "C12") },
 		Doc: "The update path reports a failure exactly where a step failed: HAProxyUpdate, Reload, writeConfig, writeCrtLists and the three map writers return an error under the reviewed tests (each fallible step's `err != nil`) and nowhere else; an inverted or dropped test turns a failed write into success (no retry) or a good one into an endless retry."})
-	addRule("C15", &core.Rule{ID: "C15.reader-exits", Floor: 12, Run: func(c *core.Ctx) { errorExitRule(c, "C15") },
+	addRule("C15", &core.Rule{ID: "C15.reader-exits", Floor: 13, Run: func(c *core.Ctx) { errorExitRule(c, "C15") },
 		Doc: "The readers of the cache facades (both runtimes) fail exactly for the reviewed reasons: unsupported protocol, file missing, name not resolvable / not permitted, object not found, key missing, content not parseable. A test that is dropped or inverted changes the list."})
 	addRule("C17", &core.Rule{ID: "C17.reader-exits", Floor: 2, Run: func(c *core.Ctx) { errorExitRule(c, "C17") },
 		Doc: "The certificate reader used by the signer reports `unreadable` only for the reviewed reasons (secret not found, crt key missing, PEM/x509 not parseable): a new rejection makes verify() re-request valid certificates."})
